@@ -710,6 +710,9 @@ var codecItemStep = 7
 // codecBurstRead: the reading side over a real connection. The peer writes one frame of `first` bytes (the source buffer grows) and
 // then `n` tiny frames in a single write, then stays silent; the reader hands out every frame from a callback chain that re-arms
 // AsyncReadNext from inside the callback (frames that are already buffered are handed out without touching the transport).
+// codecBurstTogether: the large frame and the tiny ones go out in one write (they reach the reader's buffer together).
+var codecBurstTogether = false
+
 func codecBurstRead(first, n int) (ok bool, why string) {
 	runtime.LockOSThread()
 	defer runtime.UnlockOSThread()
@@ -749,12 +752,17 @@ func codecBurstRead(first, n int) (ok bool, why string) {
 		big[i] = byte(i * 13)
 	}
 	put(big)
-	if _, err := peer.Write(wire); err != nil {
-		return false, "peer write"
+	if !codecBurstTogether {
+		if _, err := peer.Write(wire); err != nil {
+			return false, "peer write"
+		}
+		wire = wire[:0]
 	}
-	wire = wire[:0]
 	for i := 0; i < n; i++ {
 		put([]byte{byte(i), byte(i >> 8), 0x5a})
+	}
+	if codecBurstTogether {
+		go func(w []byte) { _, _ = peer.Write(w) }(append([]byte(nil), wire...))
 	}
 	got, bad, failed := 0, "", false
 	var next func()
@@ -782,7 +790,7 @@ func codecBurstRead(first, n int) (ok bool, why string) {
 	for got < n+1 && bad == "" && !failed && time.Since(quiet) < 1500*time.Millisecond {
 		before := got
 		_ = ioc.RunOneFor(5 * time.Millisecond)
-		if got == 1 && !sent {
+		if got == 1 && !sent && !codecBurstTogether {
 			sent = true
 			if _, err := peer.Write(wire); err != nil {
 				return false, "peer write"
@@ -978,6 +986,17 @@ func codecDirect(seed uint64, tier string, args []string, w *bufio.Writer) {
 			if ok, why := codecBurstRead(v[0], v[1]); !ok {
 				fail("real-transport", "burst read: "+why)
 			}
+		}
+		// a frame of 9 / 20 MiB with small frames right behind it in the same write (the source buffer grows to tens of MiB and is
+		// drained with the next frames already in it)
+		if memAvailableKiB() >= 4<<20 {
+			codecBurstTogether = true
+			for _, v := range [][2]int{{9 << 20, 5}, {20 << 20, 40}, {300 << 10, 10}} {
+				if ok, why := codecBurstRead(v[0], v[1]); !ok {
+					fail("real-transport", "large frame and small ones in one write: "+why)
+				}
+			}
+			codecBurstTogether = false
 		}
 		for _, v := range [][3]int{{1, 80, 1 << 20}, {1, 25, 4 << 20}, {2, 14, 24 << 20}} {
 			fn := v[1]
